@@ -13,6 +13,7 @@ A(str) == str
 EF == <<101, 120, 112, 114, 46, 116, 120, 116>>           \* expr.txt
 IFN == <<105, 110, 46, 106, 115, 111, 110>>               \* in.json
 MISSING == <<110, 111, 112, 101, 46, 116, 120, 116>>      \* nope.txt
+DEVSTDIN == <<47, 100, 101, 118, 47, 115, 116, 100, 105, 110>>   \* /dev/stdin: a "file" that is a pipe (no size to be had from its metadata)
 OptF(long) == IF long THEN <<45, 45, 102, 105, 108, 101, 110, 97, 109, 101>> ELSE <<45, 102>>
 OptE(long) == IF long THEN <<45, 45, 101, 120, 112, 114, 45, 102, 105, 108, 101>> ELSE <<45, 101>>
 OptU(long) == IF long THEN <<45, 45, 117, 110, 113, 117, 111, 116, 101, 100>> ELSE <<45, 117>>
@@ -20,11 +21,12 @@ OptAst == <<45, 45, 97, 115, 116>>
 
 CaseOf(e, i, exprsrc, inputsrc, unq, ast, long, pad) ==
   LET argv == (IF unq THEN <<OptU(long)>> ELSE <<>>) \o (IF ast THEN <<OptAst>> ELSE <<>>)
-              \o (IF inputsrc = "file" THEN <<OptF(long), IFN>> ELSE IF inputsrc = "missingfile" THEN <<OptF(long), MISSING>> ELSE <<>>)
+              \o (IF inputsrc = "file" THEN <<OptF(long), IFN>> ELSE IF inputsrc = "missingfile" THEN <<OptF(long), MISSING>>
+                  ELSE IF inputsrc = "devstdin" THEN <<OptF(long), DEVSTDIN>> ELSE <<>>)
               \o (IF exprsrc = "arg" THEN <<e>> ELSE IF exprsrc = "file" THEN <<OptE(long), EF>> ELSE <<OptE(long), MISSING>>)
       files == (IF exprsrc = "file" THEN <<[name |-> EF, content |-> e]>> ELSE <<>>)
                \o (IF inputsrc = "file" THEN <<[name |-> IFN, content |-> i]>> ELSE <<>>)
-  IN [e |-> "cli", argv |-> argv, files |-> files, stdin |-> IF inputsrc = "stdin" THEN i ELSE <<>>,
+  IN [e |-> "cli", argv |-> argv, files |-> files, stdin |-> IF inputsrc \in {"stdin", "devstdin"} THEN i ELSE <<>>,
       expr |-> e, input |-> i, exprsrc |-> exprsrc, inputsrc |-> inputsrc, unquoted |-> unq, ast |-> ast, pad |-> pad]
 
 Case(ei, ii, exprsrc, inputsrc, unq, ast, long) == CaseOf(P.exprs[ei], P.inputs[ii], exprsrc, inputsrc, unq, ast, long, 0)
@@ -40,7 +42,12 @@ Cases(zzdummy) ==
       \* inputs longer than 64 KiB / 128 KiB on stdin and in a file (the character U+E000 of the input stands for `pad` letters)
       big == SetToSeq({<<ei, bi, p, is>> : ei \in {P.bigexprs[1], P.bigexprs[2]}, bi \in DOMAIN P.biginputs, p \in {P.pads[k] : k \in DOMAIN P.pads},
                                          is \in {"stdin", "file"}})
+      \* expression texts with line breaks through every expression source; input through /dev/stdin
+      crlf == SetToSeq({<<ei, ii, es, u>> : ei \in {P.crlfexprs[k] : k \in DOMAIN P.crlfexprs}, ii \in {1, 2, 7}, es \in {"arg", "file"}, u \in BOOLEAN})
+      dev == SetToSeq({<<ei, ii, es, u>> : ei \in {1, 2, 9, 10, 18, 22, 35}, ii \in {1, 2, 7, 12, 13, 4}, es \in {"arg", "file"}, u \in BOOLEAN})
   IN [x \in DOMAIN all |-> Case(all[x][1], all[x][2], all[x][3], all[x][4], all[x][5], all[x][6], all[x][7])]
+     \o [x \in DOMAIN crlf |-> Case(crlf[x][1], crlf[x][2], crlf[x][3], "stdin", crlf[x][4], FALSE, FALSE)]
+     \o [x \in DOMAIN dev |-> Case(dev[x][1], dev[x][2], dev[x][3], "devstdin", dev[x][4], FALSE, FALSE)]
      \o [x \in DOMAIN big |-> CaseOf(P.exprs[big[x][1]], P.biginputs[big[x][2]], "arg", big[x][4], FALSE, FALSE, FALSE, big[x][3])]
 ASSUME ndJsonSerialize(IOEnv.OUT, Cases(0))
 =============================================================================
